@@ -91,6 +91,10 @@ RULE = ("cases: static verdict vs. observed equivariance on random flag combinat
         "histories on one transform object, default arguments, input forms, batch of two. non-trivial = at least 2 pixels "
         "per axis and a non-constant sample; distinct = distinct (config, shape, data seed)")
 PENDING_FINDINGS: list[str] = []
+# helper lemma modules of phase 3: hygiene-checked and axiom-audited too (the enumeration modules C08Enum / C08Given are
+# compiled as dependencies of Props/C08.lean)
+EXTRA_LEAN_MODULES = ["DirectVerif.Lemmas.C08PrePost", "DirectVerif.Lemmas.C08Err", "DirectVerif.Lemmas.C08Ext",
+                      "DirectVerif.Lemmas.C08Recon"]
 
 KEY_ORDER = ["kspace", "masked_kspace", "sampling_mask", "acs_mask", "padding", "sensitivity_map", "scaling_factor",
              "target", "body_coil_image", "input_kspace", "input_sampling_mask", "target_sampling_mask"]
